@@ -94,7 +94,7 @@ def cfg_const(cfg_text, name, default=None):
     return int(m.group(1)) if m else default
 
 
-def mc_job(name, module, cfgs, props, export=True, strict=True, cap_q=None, cap_t=20000, workers=8, timeout_q=300, timeout_t=3000):
+def mc_job(name, module, cfgs, props, export=True, strict=True, cap_q=None, cap_t=8000, workers=8, timeout_q=300, timeout_t=3000):
     """Model-check MC configs (quick: cfgs['quick'], thorough: cfgs['thorough']) and export the paths as schedules."""
     if cap_q is None:
         cap_q = 1800 if module == "MC_Netcode" else 700
@@ -783,7 +783,7 @@ PLANS = {
                      "non-trivial = at least one delivery and one fault"),
     "C12": Plan("msg", "TraceRenetMon", ["C12"], [("api", g_api)],
                 mc=[mc_job("server_api", "MC_Server", {"quick": ["MC_C12_q1.cfg", "MC_C12_q2.cfg"], "thorough": ["MC_C12_q1.cfg", "MC_C12_q2.cfg"]}, ["C12"], strict=False,
-                           cap_q=1500, cap_t=60000)],
+                           cap_q=1500, cap_t=20000)],
                 level="model_checking", assumptions=MSG_ASSUME,
                 rule="sequences of public API calls of RenetServer / RenetClient (table, status, traffic, undecodable packets, local clients): "
                      "every model state of the depth-5 call graph over two ids + seeded-random sequences up to 25 calls; all are non-trivial "
